@@ -9,7 +9,7 @@ RULES = {
                 '(one evaluation, call arguments forwarded), for Derivative, Gradient, Jacobian, Hessdiag and Hessian',
     'R-NONNEG': 'every entry of error_estimate is provably >= 0 on every path (sign lattice through Richardson._estimate_error, '
                 'dea3, _add_error_to_outliers and their sum)',
-    'R-GATHER': 'final_step reaches the record from the generated steps through selection only (slices, gathers, reshape, '
+    'R-GATHER': 'final_step reaches the record from the generated steps of the coordinate the entry belongs to, through selection only (slices, gathers, reshape, '
                 'multiplication by exactly one) - so it is one of the generated steps - and error_estimate / final_step '
                 'have exactly the shape of the result',
     'R-FLOOR': 'with a single finite-difference estimate (nothing to compare it with) the reported error is not proportional to '
@@ -177,6 +177,12 @@ def one(ctx, core, cls, kw, xshape, fshape, rshape, nsteps=9, late=False):
         shapes_ok = (compatible(eshape, vshape) and compatible(sshape, vshape) and vshape == tuple(rshape))
         if kw.get('n') == 0:
             badsel = []      # n == 0 generates no steps (final_step is the literal zero step)
+        elif cls != 'Hessian' and not badsel:
+            # ... and it is a step of the coordinate the entry belongs to (x coordinate = last axis of the result)
+            for p_, e in enumerate(sitems):
+                coords = {t[2] for t in e.sel}
+                if coords != {p_ % n}:
+                    badsel.append('entry %d (coordinate %d) reports a step of coordinate(s) %s' % (p_, p_ % n, sorted(coords)))
         rep.check(not badsel and shapes_ok, 'R-GATHER', construct, where,
                   {'result_shape': list(vshape), 'expected_result_shape': list(rshape),
                    'error_estimate_shape': list(eshape), 'final_step_shape': list(sshape),
